@@ -160,12 +160,18 @@ def sumAbsInv : List Rat → Rat
   | [] => 0
   | t :: r => rabs (1 / t) + sumAbsInv r
 
+def maxAbs : List Rat → Rat
+  | [] => 0
+  | t :: r => if rabs t < maxAbs r then maxAbs r else rabs t
+
 /-- Knife edges, where binary64 and exact arithmetic part ways: a vanishing cell-face distance, a half
-    transmissibility that vanishes (IEEE: `1/0 = inf`) or nearly does (margin 1e-6), a face without
-    cells, or a harmonic sum `Σ 1/t_half` that cancels (relative margin 1e-6).  The correspondence check
-    skips and counts these inputs; the theorems do not depend on this function. -/
+    transmissibility that vanishes (IEEE: `1/0 = inf`) or nearly does (below 1e-6 of the largest half
+    transmissibility of the grid — a relative margin, tensors of any magnitude are treated alike), a face
+    without cells, or a harmonic sum `Σ 1/t_half` that cancels (relative margin 1e-6).  The correspondence
+    check skips and counts these inputs; the theorems do not depend on this function. -/
 def degenerate (g : Grid) : Bool :=
-  g.hf.any (fun h => (dvec g h).dot (dvec g h) == 0 || rabs (tHalf g h) * 1000000 < 1)
+  let m := maxAbs (g.hf.map (tHalf g))
+  g.hf.any (fun h => (dvec g h).dot (dvec g h) == 0 || rabs (tHalf g h) * 1000000 ≤ m)
   || (List.range g.nf).any (fun f =>
         (hfOf g f).isEmpty ||
         rabs (sumInv ((hfOf g f).map (tHalf g))) * 1000000 ≤ sumAbsInv ((hfOf g f).map (tHalf g)))
